@@ -453,6 +453,13 @@ def resolveCanon (s : Store) (tx : Tx) (r : Ref) : Except Err Id :=
   | .error e => .error e
   | .ok i => .ok (canonical s tx i)
 
+/-- `SchemaEnvironment::prepare_proposition` as far as the generated predicates go: `prefers` (code 5)
+declares the domain `Person` (type code 1); `same_as` (7) takes any two Concepts. The subject is the
+*canonicalised* one, as this transaction sees it (a merged-away Person whose survivor is of another
+type no longer `prefers` anything). -/
+def domainViolation (s : Store) (tx : Tx) (subject : Id) (p : Nat) : Bool :=
+  p == 5 && (match viewRow s tx subject with | some r => r.ty != 1 | none => true)
+
 /-! ### Planning primitives (`Store → Tx → PS`), chained with `PS.andThen` -/
 
 def pFail (e : Err) (s : Store) (tx : Tx) : PS := .fail s tx e
@@ -662,14 +669,14 @@ def applyClause (c : Clause) (s : Store) (tx : Tx) : PS :=
       | _, .error e => .fail s tx e
       | .ok a, .ok b =>
           match findProposition s (a, p, b) with
-          | some id => ((pGuard bad .invalid s tx).andThen (pExpect id expect)).andThen (pBind h id)
+          | some id => ((pGuard (bad || domainViolation s tx a p) .invalid s tx).andThen (pExpect id expect)).andThen (pBind h id)
           | none =>
               -- a tuple an earlier clause of this statement staged for creation is bound, not staged again
               match (if Gen.NexusOrder.ensureConsultsStaged then stagedNewProposition tx (a, p, b) else none) with
               | some id =>
-                  ((pGuard bad .invalid s tx).andThen (pGuard (expectNonZero expect) .versionConflict)).andThen (pBind h id)
+                  ((pGuard (bad || domainViolation s tx a p) .invalid s tx).andThen (pGuard (expectNonZero expect) .versionConflict)).andThen (pBind h id)
               | none =>
-                  ((pGuard bad .invalid s tx).andThen (pGuard (expectNonZero expect) .versionConflict)).andThen
+                  ((pGuard (bad || domainViolation s tx a p) .invalid s tx).andThen (pGuard (expectNonZero expect) .versionConflict)).andThen
                     (pMint .proposition (fun id s tx =>
                       (pBind h id s tx).andThen (pStageNew id { ty := p, tup := some (a, p, b) })))
   | .createRec _ h pay refs bad =>
